@@ -78,6 +78,9 @@ def run(ctx):
     ctx.rule("R-C05-SITES", "static enumeration of all Assert terminators and panicking calls in scope (cross-check of the obligation log)")
     sites = static_panic_sites(ctx, A, bodies, "R-C05", since)
     sccs = recursion_sites(F, bodies)
+    if ctx.tier == "thorough":
+        ctx.rule("R-C05-CLIPPY", "cross-reference: every potential-panic site flagged by clippy's restriction lints maps to an enumerated obligation")
+        ctx.cov["clippy_crossref"] = clippy_crossref(ctx, A, bodies, "R-C05", since, ("src/transport/", "src/util.rs", "src/lib.rs"))
     ctx.cov.update({
         "config": "all features (std, alloc, nb, embedded-hal-02, serde)",
         "bodies_in_scope": len(bodies), "bodies_excluded_A7": skipped,
